@@ -164,6 +164,19 @@ CHECKS["C07"] = (
     LEVEL_NOTE_COMMON + "The user database is an arbitrary function; 'nothing for an invalid token' rests on C03/C04; history independence on C20 (both probed by the oracle).",
     "DESIGN.md §6 C07")
 
+CHECKS["C06"] = (
+    "Rocq proof (URI matcher soundness/completeness over a model of urllib's parser fragment, HTML escaping, delivery round trips) + vm_compute correspondence (incl. differential validation of the urllib/html model on every generated string) + independent matcher oracle on the real endpoints",
+    "Theorems (Props/C06.v, 27, closed) over Model/Uri.v, Lib/Html.v, Model/Delivery.v: anything verify_uri accepts has no fragment, no "
+    "control characters, a host, a valid port, an absolute path and equals a registered URI in scheme, netloc (hostname+userinfo for native "
+    "loopback, port ignored only there), path, params and query multimap (C06_match_sound*); a registered URI is accepted "
+    "(C06_match_complete); a failing redirect_uri never leads to a redirect (C06_error_is_direct); escaped text contains no markup and "
+    "decodes back; the form_post page parses back to exactly the action and the issued pairs; query/fragment/logout-state delivery leaves "
+    "the target unchanged and the parameters exact for every accepted URI. Correspondence ~12k cases quick: single-fault URI matrix x 16 "
+    "client configurations x endpoint types, response types x modes x hostile state values, end-session matrix. One recorded finding "
+    "(empty-path-params-dropped) with guarded theorem + refuted witness.",
+    LEVEL_NOTE_COMMON + "urllib.parse / html.escape are modelled for the ASCII fragment and validated differentially every run; non-ASCII and exotic IPv6 literals are Unmodelled (counted, ~3%).",
+    "DESIGN.md §6 C06")
+
 NOT_YET = "not claimed in this snapshot: its model/theorems/driver are not built yet (DESIGN.md §9 build order); no check is registered rather than a weaker technique"
 
 
